@@ -50,6 +50,9 @@ ORACLES = {
     "O_env_shared": "every nested parse (include, directive body, substitution) receives the SAME md_env object: state a nested "
                     "parse creates - also the first 'references' entry of the whole document - persists for every later one "
                     "(C06_registries_shared; corr/search: chains of wrappers with definitions inside k and uses inside j>k)",
+    "O_include_state": "what MockIncludeDirective.run keeps across calls (md_env['include_log'], md_env relative-* entries, "
+                       "document['source'], the reporter's source / get_source_and_line) is restored when run returns "
+                       "(C06_include_log_restored; corr/search: include histories - the same file included more than once)",
     "O_other_directives": "directives other than admonitions/include only see (name, arguments, options, body, offset, "
                           "position, registries) (metamorphic pairs with nested code-block/unknown directives)",
 }
@@ -603,6 +606,16 @@ def corr(ctx):
             ctx.sample({"chain_wrapped": chain_docs(case)[0]})
         if not ok and len(ctx.disagreements) < 40:
             ctx.disagree("chain of nested parses (definitions inside k, uses inside j>k): " + str(what), case, obs, exp)
+    hist = list(FIXED_HISTORIES) + [gen_history(rng) for _ in range(ctx.budget(80, 800, 800))]
+    for i, case in enumerate(hist):
+        ok, sig, what, exp, obs = eval_history(case)
+        ctx.corr_cases += 1
+        ctx.count("history:" + ("ok" if ok else "differs"))
+        ctx.nontriv(("history", repr(case["main"]), repr(sorted(case["files"].items()))))
+        if i == 0:
+            ctx.sample({"history_wrapped": history_docs(case)[0]})
+        if not ok and len(ctx.disagreements) < 40:
+            ctx.disagree("include history (same file included more than once): " + str(what), case, obs, exp)
     n = ctx.budget(500, 6000, 6000)
     for i in range(n):
         case = gen_case(rng)
@@ -620,6 +633,11 @@ def corr(ctx):
 # ------------------------------------------------------------------ direct property oracle
 
 def check_case(ctx, case):
+    if case.get("history"):
+        ok, sig, what, exp, obs = eval_history(case)
+        if not ok:
+            ctx.fail(sig, case, what, expected=exp, observed=obs)
+        return ok
     if case.get("chain"):
         ok, sig, what, exp, obs = eval_chain(case)
         if not ok:
@@ -884,6 +902,132 @@ def check_rst_include_md(ctx, case):
     return True
 
 
+# ---- include histories within one document: the same file included more than once ----
+# (twice in sequence; at top level and inside a directive body; through two intermediate files; after a nested chain
+# a -> b -> c has returned, b again).  What the include directive keeps across calls - the chain used for the
+# circular-inclusion test, md_env entries, the reporter's source/line hooks - must be back to what it was when an
+# include returns, so every further include of an acyclic history renders like the text written in place.
+
+def _hist_text(rng, tag):
+    """a chunk that begins and ends with a paragraph, so that pasting chunks next to each other does not merge
+    lists / quotes across the (former) include boundary"""
+    k = rng.randrange(4)
+    if k == 0:
+        return [f"{tag} para " + G.words(rng, 1, 3)]
+    if k == 1:
+        return [f"{tag} before list", "", f"- {tag} item one", f"- {tag} item two", "", f"{tag} after list"]
+    if k == 2:
+        return [f"{tag} before quote", "", f"> {tag} quoted", "", f"{tag} after quote"]
+    return [f"{tag} first line", "second *em* line"]
+
+
+def gen_history(rng, fixed=None):
+    """files f0..fn (fi may include fj only for j > i: acyclic), main = items; an item is
+    ("text", lines) | ("inc", name) | ("note-inc", name)"""
+    if fixed is not None:
+        return fixed
+    n = rng.randint(1, 4)
+    files = {}
+    for i in range(n):
+        items = [("text", _hist_text(rng, f"F{i}"))]
+        for j in range(i + 1, n):
+            if rng.random() < 0.5:
+                items.append(("inc", f"f{j}.md"))
+                if rng.random() < 0.3:
+                    items.append(("text", _hist_text(rng, f"F{i}b")))
+                if rng.random() < 0.25:
+                    items.append(("inc", f"f{j}.md"))           # the same file twice from one file
+        files[f"f{i}.md"] = items
+    main = [("text", _hist_text(rng, "M"))]
+    for _ in range(rng.randint(2, 5)):
+        name = f"f{rng.randrange(n)}.md"
+        main.append((rng.choice(["inc", "inc", "note-inc"]), name))
+        if rng.random() < 0.4:
+            main.append(("text", _hist_text(rng, "Mx")))
+    # make sure some file is included at least twice in the history
+    main.append(("inc", main[1][1]))
+    return {"history": True, "files": files, "main": main}
+
+
+FIXED_HISTORIES = [
+    # twice in sequence at top level
+    {"history": True, "files": {"f0.md": [("text", ["snippet para"])]},
+     "main": [("inc", "f0.md"), ("inc", "f0.md")]},
+    # at top level and again inside a directive body
+    {"history": True, "files": {"f0.md": [("text", ["snippet para"])]},
+     "main": [("inc", "f0.md"), ("note-inc", "f0.md"), ("text", ["tail"])]},
+    # through two different intermediate files that both include it
+    {"history": True, "files": {"f0.md": [("text", ["A"]), ("inc", "f2.md")], "f1.md": [("text", ["B"]), ("inc", "f2.md")],
+                                "f2.md": [("text", ["common"])]},
+     "main": [("inc", "f0.md"), ("inc", "f1.md")]},
+    # after a nested chain a -> b -> c has returned, b again
+    {"history": True, "files": {"f0.md": [("text", ["A"]), ("inc", "f1.md")], "f1.md": [("text", ["B"]), ("inc", "f2.md")],
+                                "f2.md": [("text", ["C"])]},
+     "main": [("inc", "f0.md"), ("inc", "f1.md"), ("note-inc", "f2.md")]},
+]
+
+
+def history_docs(case):
+    files = {k: [tuple(i) for i in v] for k, v in case["files"].items()}
+
+    def file_text(items):
+        out = []
+        for it in items:
+            if out:
+                out.append("")
+            if it[0] == "text":
+                out += list(it[1])
+            else:
+                out += ["```{include} " + it[1], "```"]
+        return out
+
+    def expand(items):
+        out = []
+        for it in items:
+            if out:
+                out.append("")
+            if it[0] == "text":
+                out += list(it[1])
+            elif it[0] == "inc":
+                out += expand(files[it[1]])
+            else:
+                out += ["`````{note}"] + expand(files[it[1]]) + ["`````"]
+        return out
+
+    wrapped = []
+    for it in [tuple(i) for i in case["main"]]:
+        if wrapped:
+            wrapped.append("")
+        if it[0] == "text":
+            wrapped += list(it[1])
+        elif it[0] == "inc":
+            wrapped += ["```{include} " + it[1], "```"]
+        else:
+            wrapped += ["`````{note}", "```{include} " + it[1], "```", "`````"]
+    return wrapped, expand([tuple(i) for i in case["main"]]), {k: "\n".join(file_text(v)) + "\n" for k, v in files.items()}
+
+
+def eval_history(case):
+    from lib.impl import scratch_dir
+    wrapped, plain, files = history_docs(case)
+    try:
+        with scratch_dir() as d:
+            for name, content in files.items():
+                with open(os.path.join(d, name), "w", encoding="utf8") as f:
+                    f.write(content)
+            src = os.path.join(d, "main.md")
+            dw, ww = parse("\n".join(wrapped) + "\n", source_path=src)
+            dp, _ = parse("\n".join(plain) + "\n", source_path=src)
+    except Exception as e:
+        return False, f"exception:{type(e).__name__}:include-history", f"rendering raised {e!r}", None, repr(e)
+    a, b = [canon(c) for c in dw.children], [canon(c) for c in dp.children]
+    if a != b:
+        return (False, "include:repeated-history",
+                "a document that includes the same file more than once (acyclic history) differs from the text written in "
+                "place: " + str(first_diff(a, b)), show(b), show(a) + "\n" + ww[-400:])
+    return True, None, None, None, None
+
+
 def usability_doc(kind, what, where):
     """a document with a definition of [what] inside wrapper [kind] and a use outside, [where] = before/after"""
     defs = {"footnote": "[^fn1]: the note text", "target": "(tgt1)=\ninner paragraph", "refdef": "[ref1]: https://ref.example.org/x"}
@@ -976,6 +1120,10 @@ def search(ctx):
         ctx.search_cases += 1
         ctx.count("chain:generated")
         check_case(ctx, gen_chain(rng))
+    for case in list(FIXED_HISTORIES) + [gen_history(rng) for _ in range(ctx.budget(120, 1500, 1000))]:
+        ctx.search_cases += 1
+        ctx.count("include-history")
+        check_case(ctx, case)
     # eval-rst including a Markdown file through docutils' include (:parser:), definition-free bodies
     for i in range(ctx.budget(40, 400, 300)):
         X = G.body(rng, allow=frozenset({"directive"}))
